@@ -122,14 +122,14 @@ def doc_to_model(document):
     out = []
     for d in document.to_dict()["definitions"]:
         k = d["__kind__"]
-        if any(v.get("directives") for v in d.get("variable_definitions") or []):
-            raise NotModelled("variable-definition-directives")     # visited since 370692d
+        # directives of variable definitions (visited since 370692d) are part of the model: VarDef.dirs, `Directives[Const]`
         if k == "FragmentDefinition" and d.get("variable_definitions"):
             raise NotModelled("fragment-variable-definitions")      # visited since 57ee286 (experimental syntax)
         if k == "OperationDefinition":
             out.append({"k": "op", "op": d["operation"], "name": d["name"]["value"] if d.get("name") else None,
                         "vars": [{"n": v["variable"]["name"]["value"], "t": _ty(v["type"]),
-                                  "d": _value(v["default_value"]) if v.get("default_value") is not None else None}
+                                  "d": _value(v["default_value"]) if v.get("default_value") is not None else None,
+                                  "dirs": _dirs(v.get("directives"))}
                                  for v in d["variable_definitions"] or []],
                         "dirs": _dirs(d["directives"]), "sub": _sub(d["selection_set"])})
         elif k == "FragmentDefinition":
